@@ -85,9 +85,22 @@ def items(tier, seed):
         if qt in db.categories_to_quantity_types:
             us = db.GetUnits(qt)
             simple += [(qt, u, us[0]) for u in us[1:]] + [(qt, us[0], u) for u in us[1:]]
+    # every ordered pair in which one unit has an offset (temperature, gauge pressures), with every container kind round-robin
+    affine_pairs = []
+    for qt in db.GetQuantityTypes():
+        if qt not in db.categories_to_quantity_types:
+            continue
+        us = db.GetUnits(qt)
+        aff = [u for u in us if getattr(db.GetInfo(qt, u).tobase, "__a__", 0.0) != 0.0]
+        affine_pairs += [(qt, u, v) for u in us for v in us if u != v and (u in aff or v in aff)]
+    n_plain = len(simple)
+    simple += affine_pairs
     simple += seeded_sample(allp, 300 if tier == "quick" else 20000, seed)
+    affine_set = set(affine_pairs)
     for qt, u, v in simple:
         out.append({"t": "simple", "qt": qt, "A": ["leaf", u, qt], "B": ["leaf", v, qt], "op": ["add", "sub"][len(out) % 2]})
+        if (qt, u, v) in affine_set:
+            out[-1]["arr"] = [None, "numpy", "list", "tuple"][len(out) % 4]
     for i, c in enumerate(out):
         if i % 5 == 0 and c["t"] != "simple" and "pow" not in json.dumps(c) and not c.get("arr"):
             c["arr"] = ["numpy", "list", "tuple"][(i // 5) % 3]
